@@ -2,6 +2,20 @@
 #![allow(dead_code)]
 #![allow(clippy::all)]
 
+/// Kani's `assert!` assumes its condition afterwards (a panic ends the path), so a failing
+/// assertion hides every later assertion on the same path - and with it the property tags of
+/// the later ones.  `indep! { .. }` runs a group of assertions under a fresh nondeterministic
+/// guard: groups are then decided independently of each other.
+#[cfg(kani)]
+#[macro_export]
+macro_rules! indep {
+    ($($body:tt)*) => {
+        if kani::any::<bool>() {
+            $($body)*
+        }
+    };
+}
+
 #[cfg(kani)]
 pub mod env;
 #[cfg(kani)]
